@@ -6,6 +6,7 @@ from the property statement (list elements, place each subtotal after its anchor
 bottom in definition order, drop hidden) - it does not use sort-key triples.
 """
 
+import copy
 import itertools
 
 import numpy as np
@@ -174,6 +175,18 @@ def spaces(tier):
             for ex in range(len(seqs)):
                 for h in range(8):
                     yield ("mr", layout, ex, h)
+    def genu():
+        # an insertion whose addends are all missing / stale is not displayed; the others keep anchors, names, numbering
+        anchors = ["top", "bottom", 1, 2, "3", None, STALE]
+        for m in (2, 3):
+            for il in itertools.product(anchors if m == 2 else anchors[:5], repeat=m):
+                for u in range(m):
+                    for idless in (False, True):
+                        for where in ("transform", "view"):
+                            for dim in ("rows", "strand"):
+                                yield ("unusable", tuple(il), u, idless, where, dim)
+    out.append(Space("unusable_insertion", [(1, genu)], 1, {"valid_elements": 3, "insertions": [2, 3],
+                                                            "unusable_addends": "[missing id, stale id]"}))
     out.append(Space("mr_derived", [(1, genm)], 1, {"layouts": len(MR_LAYOUTS)}))
     return out
 
@@ -398,11 +411,64 @@ def check(space, state):
         _, n, il, ex, variant, prune = state
         part, exp, sub_ids, eff, dim = _run_cat(n, il, ex, set(), data_variant=variant, prune=prune)
         a, signed = _compare(part, exp, sub_ids, eff, dim, V, ":prune")
+    elif kind == "unusable":
+        return _check_unusable(space, state)
     else:
         return _check_mr(state)
     asserted += a
     ntv = signed != sorted(x for x in signed if x >= 0)
     return Res(V, ntv, digest(space, repr(signed)), asserted)
+
+
+def _check_unusable(space, state):
+    _, il, u, idless, where, dim = state
+    V = []
+    n = 3
+    ids = [1, 2, 3]
+    ins = _insertions(il, idless)
+    dead = subtotal("dead", [MISS, STALE], anchor=il[u], sid=None if idless else 10 + u)
+    dead["alias"] = "al_dead"
+    ins[u] = dead
+    R = S.cat("r", n, "mid", ids=ids)
+    if where == "view":
+        R = CatVar(R.alias, R.cats, view_insertions=ins)
+        tr = {}
+    else:
+        tr = {"rows_dimension": {"insertions": ins}}
+    if dim == "rows":
+        sch = Schema("c07u", [R, S.cat("c", 2, "last")], [("cat", 0), ("cat", 1)])
+        data = [((i, 1), 1, None) for i in ids]
+    else:
+        sch = Schema("c07u", [R], [("cat", 0)])
+        data = [((i,), 1, None) for i in ids]
+    part = Cube(tabulate(sch, data), transforms=copy.deepcopy(tr)).partitions[0]
+    usable = [i for k, i in enumerate(ins) if k != u]
+    exp = spec_order(ids, None, [i["anchor"] for i in usable], set())
+    signed = [e[1] if e[0] == "e" else e[1] - len(usable) for e in exp]
+    obs_s = [int(i) for i in part.row_order()]
+    tok = lambda seq: [int(x) if not str(x).startswith("ins_") else str(x) for x in seq]
+    obs_b = tok(part.row_order(ORDER_FORMAT.BOGUS_IDS))
+    pay = tok(part.payload_order)
+    labels = list(part.row_labels)
+    tag = ":unusable"
+    if obs_s != signed:
+        V.append(viol("order:signed" + tag, "display order %r, specification over the usable insertions gives %r" % (obs_s, signed)))
+    else:
+        want = [None if e[0] == "e" else usable[e[1]]["name"] for e in exp]
+        got = [lab if w is not None else None for lab, w in zip(labels, want)]
+        if got != want or len(labels) != len(want):
+            V.append(viol("naming:subtotal" + tag, "labels %r, the insertions placed there are %r" % (labels, want)))
+        if not idless:
+            bogus = [e[1] if e[0] == "e" else "ins_%s" % usable[e[1]]["id"] for e in exp]
+            if obs_b != bogus:
+                V.append(viol("order:bogus_ids" + tag, "BOGUS_IDS rendering %r does not name %r" % (obs_b, bogus)))
+        # no explicit order, nothing hidden: payload order IS the display order, so the two renderings coincide
+        if pay != obs_b:
+            V.append(viol("payload_order" + tag, "payload_order %r, BOGUS_IDS rendering of the same order %r" % (pay, obs_b)))
+        names = [x for x in obs_b if isinstance(x, str)]
+        if len(set(names)) != len(usable):
+            V.append(viol("order:bogus_ids" + tag, "BOGUS_IDS rendering %r does not name %d distinct insertions" % (obs_b, len(usable))))
+    return Res(V, signed != sorted(x for x in signed if x >= 0), digest(space, repr(signed), repr(obs_b)), 5)
 
 
 def _check_mr(state):
